@@ -49,7 +49,9 @@ def classify(u):
     if re.search(r"^rln::circuit::iden3calc::populate_inputs$", fn) and u["kind"] != "Diverge":
         # the store input_buffer[offset + i] is within the graph's own range (resource) only when the request's vector has the
         # declared length: the length test must be among the facts preceding the obligation
-        guarded = any(isinstance(f, tuple) and isinstance(f[0], str) and re.search(r" Ne len\(", f[0]) and f[1] is False for f in u["facts"])
+        # (either operand order, `!=` false or `==` true)
+        guarded = any(isinstance(f, tuple) and isinstance(f[0], str) and "len(" in f[0] and
+                      ((re.search(r" Ne ", f[0]) and f[1] is False) or (re.search(r" Eq ", f[0]) and f[1] is True)) for f in u["facts"])
         if not guarded:
             return None
     for rx, kind, reason in CLASSES:
